@@ -3,6 +3,7 @@ package main
 import (
 	"fmt"
 	"go/types"
+	"regexp"
 	"sort"
 	"strings"
 
@@ -86,6 +87,26 @@ func (f *Frame) spilledVar(name string, st *State) (Val, bool) {
 		}
 		el := d.val.Type().Underlying().(*types.Pointer).Elem()
 		return Val{T: el, S: f.c.load(st, f.c.ptrOf(v), el)}, true
+	}
+	// a variable kept in memory whose stores carry no debug reference dominating this point (a named result that a
+	// deferred call forces into memory): the one allocation of the function that bears the name
+	if f.fn != nil && st != nil {
+		var hit *ssa.Alloc
+		n := 0
+		for _, b := range f.fn.Blocks {
+			for _, in := range b.Instrs {
+				if al, ok := in.(*ssa.Alloc); ok && al.Comment == name {
+					hit = al
+					n++
+				}
+			}
+		}
+		if n == 1 {
+			if v, ok := f.vals[hit]; ok {
+				el := hit.Type().Underlying().(*types.Pointer).Elem()
+				return Val{T: el, S: f.c.load(st, f.c.ptrOf(v), el)}, true
+			}
+		}
 	}
 	return Val{}, false
 }
@@ -419,8 +440,8 @@ func (f *Frame) applyContract(cur *blockCur, in ssa.Instruction, con *Contract, 
 		}
 	}
 	for _, cl := range con.Ensures {
-		if strings.Contains(cl.Label, "where-defined") {
-			continue // speaks about the callee's local variables: proved inside the callee, of no use to callers
+		if strings.Contains(cl.Label, "where-defined") || internalCallTalk.MatchString(cl.Text) {
+			continue // speaks about the callee's local variables or its own calls: proved inside the callee, of no use to callers
 		}
 		t, err := penv.evalBool(cl.Expr)
 		if err != nil {
@@ -571,6 +592,8 @@ func (f *Frame) havocItem(env *SpecEnv, st *State, con *Contract, callee *ssa.Fu
 
 // ---------------------------------------------------------------------------
 // top level: verify one function against its contract
+
+var internalCallTalk = regexp.MustCompile(`\b(returned|calls|before)\(`)
 
 type FuncResult struct {
 	Ctx      *FuncCtx
